@@ -388,7 +388,7 @@ def h_concrete_texts(c0: int, c1: int, shard=None) -> None:
     alphabet = ["a", " ", "\n", "+", "!", "<<", ">>", "#"]
     if shard.get("exotic"):
         # white space that str.splitlines() treats as a line break but the tokenizer (split on '\n') does not
-        alphabet = ["a", " ", "\n", "\f", "\r", "\u2028", "\x0b", "\x85", "+", "#"]
+        alphabet = ["a", " ", "\n", "\t", "\f", "\r", "\u2028", "\x0b", "\x85", "+", "#"]
     n = shard["n"]
     k = len(alphabet) if shard.get("with_bad") else len(alphabet) - 1
     reject_unless(0 <= c0 < k and 0 <= c1 < k)
